@@ -58,7 +58,7 @@ def run(ctx):
         st.ghost["dec-self"] = root
         st.ghost["dec-part"] = an.v_look
         look0 = obj0.elems[an.i_state].pay[an.v_look]
-        n0, d0 = look0[an.i_init].lin, look0[an.i_disc].lin
+        n0, d0 = an.look_init(look0).lin, an.look_disc(look0).lin
         lo, hi = st.interval(n0)
         if lo != 0 or hi != m - 1:
             ctx.violation("R-C08-KMP", "state-range", where, "matcher state ranges over [%s,%s], expected [0,%d]" % (lo, hi, m - 1))
@@ -107,8 +107,8 @@ def run(ctx):
                         key = "leaves the matcher (%s, state #%s), expected to stay with n'=%d" % (label, var, exp)
                         break
                     l1 = obj1.elems[an.i_state].pay[an.v_look]
-                    n1 = s3.const_of(l1[an.i_init].lin)
-                    inc = s3.const_of(l1[an.i_disc].lin - d0)
+                    n1 = s3.const_of(an.look_init(l1).lin)
+                    inc = s3.const_of(an.look_disc(l1).lin - d0)
                     if n1 != exp or inc != n + 1 - exp:
                         key = "goes to n'=%s discarding %s, KMP prescribes n'=%d discarding %d" % (n1, inc, exp, n + 1 - exp)
                         break
